@@ -232,7 +232,7 @@ def _sorter_run(case, fault):
     try:
         nostdin.__enter__()
         before = _fds()
-        sorter, _ = G.make_generic({"flavour": "t/int"}, case["cap"], case["always"], tmp)
+        sorter, _, _ = G.make_generic({"flavour": "t/int"}, case["cap"], case["always"], tmp)
         obs, surfaced, tainted, stopped = [], [], False, False
         for o in case["ops"]:
             if stopped:
@@ -435,7 +435,7 @@ def _trunc_run(case):
                     obj += MafRecord.from_line("\t".join(["chr1", str(k + 1), str(k + 1), "r%d" % i]), column_names=WCOLS,
                                                validation_stringency=ValidationStringency.Silent)
             else:
-                obj, _ = G.make_generic({"flavour": "t/int"}, cap, True, tmp)
+                obj, _, _ = G.make_generic({"flavour": "t/int"}, cap, True, tmp)
                 for i, k in enumerate(case["keys"]):
                     obj.add((k, i, 0, 0))
             files = sorted(os.listdir(tmp))
